@@ -392,10 +392,10 @@ class Exec:
         self.m.scanned()
 
     def open_writer(self):
-        return self.rl.RollLog(self.dir, self.mode, file_size=self.cfg['file_size'], total_size=self.cfg['total_size'], utc=True)
+        return self.rl.RollLog(self.dir, 'txt' if self.mode == 'txtw' else self.mode, file_size=self.cfg['file_size'], total_size=self.cfg['total_size'], utc=True)
 
     def open_reader(self):
-        return self.rl.RollLog(self.dir, self.mode, rdonly=True, autorefresh=self.cfg['reader'] == 'auto', utc=True)
+        return self.rl.RollLog(self.dir, 'txt' if self.mode == 'txtw' else self.mode, rdonly=True, autorefresh=self.cfg['reader'] == 'auto', utc=True)
 
     def close(self):
         for o in (self.r, self.w):
@@ -650,6 +650,12 @@ def plans(tier):
     for mode in MODES:
         out.append(({'mode': mode, 'file_size': 10, 'total_size': 20, 'reader': 'self', 'vias': 'c', 'sizes': (3,), 'rels': '>',
                      'nav': (), 'dels': ()}, 9 if quick else 11))
+
+    # text records with multi-byte characters: the size budget is in bytes on disk
+    for fs, ts in [(4, 12), (10, 20), (10, 40)]:
+        for reader in ('self', 'auto'):
+            out.append(({'mode': 'txtw', 'file_size': fs, 'total_size': ts, 'reader': reader, 'vias': 'c', 'sizes': (1, 3), 'rels': '>',
+                         'nav': ('tl', 'sv'), 'dels': ()}, 6 if quick else 8))
 
     return out
 
